@@ -1074,7 +1074,11 @@ static int janet_channel_pop_with_lock(JanetChannel *channel, Janet *item, int i
     int is_threaded = janet_chan_is_threaded(channel);
     if (janet_q_pop(&channel->items, item, sizeof(Janet))) {
         /* Queue empty */
-        if (is_choice == 2) return 0; // Skip pending read
+        if (is_choice == 2) {
+            /* janet_channel_take on an empty channel: do not queue a pending read */
+            janet_chan_unlock(channel);
+            return 0;
+        }
         JanetChannelPending pending;
         pending.thread = &janet_vm;
         pending.fiber = janet_vm.root_fiber,
